@@ -124,7 +124,7 @@ theorem for5_step (k j : Nat) (r : Row) (w : XW) (env : Env Hnd) (ns : List Nat)
   have e12 : env6 12 = some (.obj (.inst k j)) := by rw [h6f 12 (by decide) (by decide)]; simp
   refine ⟨env6, ?_, ?_⟩
   · unfold destroySelf_for5
-    simp only [Block.exec, Stmt.exec, Expr.eval, St.setVar, Env.put_apply, dbody, Val.ofList, List.map_nil] at h6 ⊢
+    simp only [Block.exec, Stmt.exec, Expr.eval, St.setVar, dbody, Val.ofList, List.map_nil] at h6 ⊢
     simp [h11, loopStep_dict, St.setVar, h6]
     drun
     simp [e12, gCall_set _ _ _ _ _ _ _ hcols, gCall_sync]
